@@ -25,7 +25,9 @@
 #include "opentelemetry/sdk/logs/batch_log_record_processor_options.h"
 #include "opentelemetry/sdk/logs/exporter.h"
 #include "opentelemetry/sdk/logs/logger_config.h"
+#include "opentelemetry/sdk/logs/logger_context_factory.h"
 #include "opentelemetry/sdk/logs/logger_provider.h"
+#include "opentelemetry/sdk/logs/logger_provider_factory.h"
 #include "opentelemetry/sdk/logs/processor.h"
 #include "opentelemetry/sdk/logs/read_write_log_record.h"
 #include "opentelemetry/sdk/logs/simple_log_record_processor.h"
@@ -667,7 +669,16 @@ static std::string handle(const std::vector<std::string> &toks)
     auto cfgr  = std::unique_ptr<Cfgr>(new Cfgr(Cfgr::Builder(logs_sdk::LoggerConfig::Enabled())
                                                    .AddConditionNameEquals("verif.disabled", logs_sdk::LoggerConfig::Disabled())
                                                    .Build()));
-    provider = std::make_shared<logs_sdk::LoggerProvider>(std::move(processors), resource, std::move(cfgr));
+    // two constructors, the factory overloads and a context: which one builds the provider depends on the case
+    using F = logs_sdk::LoggerProviderFactory;
+    const size_t how = (res.size() + 2 * procs.size() + sname.size()) % 5;
+    if (how == 1) provider = F::Create(std::move(processors), resource, std::move(cfgr));
+    else if (how == 2 && processors.size() == 1) provider = F::Create(std::move(processors[0]), resource, std::move(cfgr));
+    else if (how == 3 && processors.size() == 1)
+      provider = std::make_shared<logs_sdk::LoggerProvider>(std::move(processors[0]), resource, std::move(cfgr));
+    else if (how == 4)
+      provider = F::Create(logs_sdk::LoggerContextFactory::Create(std::move(processors), resource, std::move(cfgr)));
+    else provider = std::make_shared<logs_sdk::LoggerProvider>(std::move(processors), resource, std::move(cfgr));
   }
   nostd::shared_ptr<logs_api::Logger> on, off;
   {
